@@ -121,24 +121,23 @@ Print Assumptions C11_nonupdating_pass_runs_on_isomorphic_copy.
 Definition C11_copy_isomorphic_statement : Prop :=
   forall nl, fst (copy_block nl) = rename (snd (copy_block nl)) nl.
 
-(* >>> F2 SWITCH.  While /repo's clone_wire drops reset_value, `clone_kind` is
-   `clone_kind_f2` (KReg _ |-> KReg None) and the full statement is FALSE: witness
-   r = Register(4, reset_value=5); r.next <<= r + 1; o <<= r  -- the source shows
-   [5;6] on o, the copy [0;1].  After the repair: set `clone_kind := clone_kind_spec`
-   in Pass/Copy.v and replace this theorem (and its Print Assumptions) by
-     Theorem C11_copy_isomorphic : C11_copy_isomorphic_statement.
-     Proof. intro nl. apply copy_isomorphic_of. reflexivity. Qed.
-     Print Assumptions C11_copy_isomorphic.                                  <<< *)
-Theorem C11_copy_reset_refuted :
-  (out_trace f2_nl 5 2 = [5; 6]
-   /\ out_trace (fst (copy_block f2_nl)) (snd (copy_block f2_nl) 5) 2 = [0; 1])
-  /\ ~ C11_copy_isomorphic_statement.
-Proof.
-  destruct (copy_reset_refuted_of clone_kind eq_refl (fun _ => eq_refl) eq_refl eq_refl)
-    as [H1 [H2 H3]].
-  split; [split; assumption|]. intro H. exact (H3 (H f2_nl)).
-Qed.
-Print Assumptions C11_copy_reset_refuted.
+(* >>> F2 SWITCH.  /repo's clone_wire now passes reset_value, `clone_kind` is
+   `clone_kind_spec`, and the full statement holds of the model of the code as
+   it is (the model is re-tied to the real copy_block on every run).        <<< *)
+Theorem C11_copy_isomorphic : C11_copy_isomorphic_statement.
+Proof. intro nl. apply copy_isomorphic_of. reflexivity. Qed.
+Print Assumptions C11_copy_isomorphic.
+
+(* What the defect F2 was (kept as a regression theorem about the defective
+   clone policy `clone_kind_f2`, KReg _ |-> KReg None): for
+   r = Register(4, reset_value=5); r.next <<= r + 1; o <<= r  the source shows
+   [5;6] on o, the F2 copy [0;1], and the F2 copy is not a renaming of the source. *)
+Theorem C11_copy_reset_refuted_under_f2 :
+  out_trace f2_nl 5 2 = [5; 6]
+  /\ out_trace (fst (copy_with clone_kind_f2 f2_nl)) (snd (copy_with clone_kind_f2 f2_nl) 5) 2 = [0; 1]
+  /\ fst (copy_with clone_kind_f2 f2_nl) <> rename (snd (copy_with clone_kind_f2 f2_nl)) f2_nl.
+Proof. exact (copy_reset_refuted_of clone_kind_f2 eq_refl (fun _ => eq_refl) eq_refl eq_refl). Qed.
+Print Assumptions C11_copy_reset_refuted_under_f2.
 
 (* (3) identities: no wire of the copy is a wire of the source; same counts;
    memories re-instantiated under the same ids *)
